@@ -103,11 +103,9 @@ func preBlock(fw *formatWriter, source []byte, cursor *commonmark.Cursor) (child
 		}
 		return "", true
 	case commonmark.ListKind:
-		if curr.IsTightList() {
-			// Individual list items won't contain a blank line,
-			// so add them beforehand.
-			blockBreak(fw, cursor)
-		}
+		// The first list item does not separate itself from what precedes the list
+		// (and could not always interrupt a paragraph), so the list does.
+		blockBreak(fw, cursor)
 		return "", true
 	case commonmark.ListItemKind:
 		if cursor.Index() > 0 && !curr.IsTightList() {
@@ -208,9 +206,10 @@ func postBlock(fw *formatWriter, source []byte, cursor *commonmark.Cursor) {
 			fw.s("\n")
 		}
 	case commonmark.ListItemKind:
-		if fw.startedLine || !b.IsTightList() {
-			// An item of a tight list that ends in a nested block
-			// has ended its last line already.
+		if fw.startedLine {
+			// An item that ends in a nested block or in a paragraph of a loose list
+			// has ended its last line already; a blank line after it would make
+			// an enclosing tight list loose.
 			fw.s("\n")
 		}
 	case commonmark.IndentedCodeBlockKind, commonmark.FencedCodeBlockKind:
@@ -267,6 +266,11 @@ func visitInline(fw *formatWriter, source []byte, cursor *commonmark.Cursor) boo
 		}
 		return false
 	case commonmark.InfoStringKind, commonmark.LinkDestinationKind, commonmark.LinkLabelKind, commonmark.LinkTitleKind:
+		return false
+	case commonmark.IndentKind:
+		// What is left of a partially consumed tab: spaces, not the tab itself
+		// (written at another column, the tab would be as wide as a tab stop again).
+		fw.s(strings.Repeat(" ", child.IndentWidth()))
 		return false
 	default:
 		if !child.Span().IsValid() {
